@@ -107,3 +107,21 @@ Definition mk_ic (l : list Z) : icond :=
 Definition red_ok (c : list (list Z) * list (list Z) * bool) : bool :=
   let '(e, l, r) := c in Bool.eqb (redundant (map mk_ic e) (map mk_ic l)) r.
 Definition check_red := mismatches red_ok.
+
+(* ---- boxTracker: box_process (then the declaration-level duplicate removal of
+   mangleRules) against what api.Transform printed for "a{<declarations>}" ---- *)
+From V Require Import C12.BoxTracker.
+Definition bkey_eqb (a b : bkey) : bool :=
+  match a, b with
+  | KShort, KShort => true
+  | KSide x, KSide y => Nat.eqb x y
+  | KOther x, KOther y => x =? y
+  | _, _ => false
+  end.
+Definition bdecl_eqb (a b : bdecl) : bool :=
+  bkey_eqb (b_key a) (b_key b) && leqb tok_eqb (b_val a) (b_val b) && Bool.eqb (b_imp a) (b_imp b).
+(* (allow_auto, can_compact, lower, input declarations, observed output declarations) *)
+Definition box_ok (c : bool * bool * bool * list bdecl * list bdecl) : bool :=
+  let '(aa, cc, lower, i, o) := c in
+  leqb bdecl_eqb (fst (rd bdecl_eqb (fun _ => false) (fun _ => true) (box_process aa cc lower i) [])) o.
+Definition check_box := mismatches box_ok.
